@@ -8,7 +8,7 @@ ALL = ["C%02d" % i for i in range(1, 21)]
 TB = "Trusted: the reference models under /verif/mc/ref (independent of the code under test), the harness request builder (fx), Go's crypto; bounds as stated in the evidence file."
 CLAIMED = {
  "C01": ("explicit-state search over (legitimate chain, unauthorised multiset, anchoring slots, store order) on the real processor; metamorphic oracle result(L+X)=result(L)",
-         "All 22 legitimate chains x every single unauthorised operation / duplicate create (59 per key type: forged signature, tampered payload, wrong signer, wrong key revealed, alg swap, zero/short/long signature, suffix swap) at every anchoring slot x 2 store orders for all 5 key types, plus all pairs (thorough: triples) on 4 representative slots for Ed25519; resolution must be unchanged. Exhaustive within that space.",
+         "All 22 legitimate chains x every single unauthorised operation / duplicate create (65 per key type: forged signature, tampered payload, wrong signer, wrong key revealed, alg swap, zero/short/long signature, suffix swap, failing signed window) at every anchoring slot x 2 store orders (1 for the 4 non-Ed25519 key types), with properly signed positive controls, plus all pairs (thorough: triples) on 4 representative slots for Ed25519; resolution must be unchanged. Exhaustive within that space.",
          TB, "DESIGN.md §3 C01"),
  "C02": ("explicit enumeration of all store-order permutations x all injective (time,number) assignments for every competition shape, on the real processor, vs reference ordering",
          "19 (thorough 25) competition shapes (forks, several creates, deactivate vs recover, replays, published/unpublished twins) x every injective coordinate assignment from a 3x3 / 2x3 grid incl. non-monotone numbers x every permutation of the store's return order x both arrival paths of unpublished operations; every permutation must equal ref/sidetree ordered by (time, number), published first; metadata operation lists must be in that order.",
@@ -20,7 +20,7 @@ CLAIMED = {
          "Every (anchorFrom, anchorUntil) in {0,T-1,T,T+1,T+5}^2 plus the T-delta-1..T-delta+1 defaults x {update, recover, deactivate} x 38 protocol configurations in which the time delta (7, 300) varies independently of 9 other parameters; effect through the real processor and intake through the real parser with a spy time validator; outcome must depend on the delta only.",
          TB, "DESIGN.md §3 C05"),
  "C06": ("explicit-state search over histories x all cut points (times, version ids) x later extensions; metamorphic oracle against the truncated history on the real processor plus the reference model",
-         "All histories of <=3 (thorough 4) operations over a 14-operation alphabet on 5 non-monotone coordinates, published and unpublished, x every cut time from pre-epoch to maxTime+1 x every version id (and an unknown one) x 5 later-anchored extensions.",
+         "All histories of <=3 (thorough 4) operations over a 14-operation alphabet on 5 non-monotone coordinates, published and unpublished, x every cut time from pre-epoch to maxTime+1 x every version id (and an unknown one) x 5 later-anchored extensions x 2 store orders, plus the cuts through the REST resolve handler.",
          TB, "DESIGN.md §3 C06"),
  "C07": ("bounded-exhaustive input enumeration (complete families over an alphabet of tricky strings/numbers, all re-serializations, doubles by bit pattern) differential against an independent RFC 8785 reference",
          "~38k JSON texts in complete families (every <=3-subset of 25 tricky keys in every order; every escape spelling of every atom and ordered pair; number spellings; all trees depth<=2 (thorough 3); whitespace at every position; every proper prefix, duplicate names, all two-character escapes, malformed \\u, all lone-surrogate shapes, raw control bytes, trailing bytes) plus ~180k (thorough ~11M) doubles by bit pattern and decimal literals; byte equality with ref/jcs, fixed point, value preservation, and rejection agreement.",
@@ -32,7 +32,7 @@ CLAIMED = {
          "45 genuine JWS (5 key types x 3 header sets x 3 payloads) built independently and by the library's signers verify; every single-bit flip of payload and signature, every value-changing header byte substitution (quick 7 substitutes, thorough 255), 9 foreign keys, 14 signature classes are rejected, (r,n-s) verifies; 230 malformed compact strings, 18 header objects and ~30 malformed JWKs per key type give an error, never a panic.",
          TB, "DESIGN.md §3 C09"),
  "C10": ("bounded-exhaustive boundary / enabled-list / field-mutation enumeration on the real parser under independently varied configurations, against an independent rule predicate",
-         "14 valid seeds; each limit at measured-1/0/+1 with all other parameters generous and distinct; every hash field individually under SHA2-512; every enabled-list entry removed in turn; 10 unrelated parameters toggled; every JSON path of request, signed data and header removed / replaced by 11 values (re-signed) with accepted => rule predicate; all prefixes and mutations through Parse, ParseOperation (both modes), GetRevealValue, GetCommitment, and a DID grammar through ParseDID for panic freedom.",
+         "26 valid seeds (4 types x 5 key types, nonce variants); each limit at measured-1/0/+1 with all other parameters generous and distinct; every hash field individually under SHA2-512; every enabled-list entry removed in turn; 10 unrelated parameters toggled; every JSON path of request, signed data and header removed / replaced by 11 values (re-signed) with accepted => rule predicate; all prefixes and mutations through Parse, ParseOperation (both modes), GetRevealValue, GetCommitment, and a DID grammar through ParseDID for panic freedom.",
          TB, "DESIGN.md §3 C10"),
  "C11": ("bounded-exhaustive product of client-builder inputs executed through builder -> real parser -> real processor, compared with the reference document model",
          "720 configurations (5 key types x 2 hash algorithms x opaque/patches x 3 origins x 3 windows x nonce x kid) x 4 builders x 5 anchored scenarios.",
@@ -44,10 +44,10 @@ CLAIMED = {
          "Six valid file sets decoded to JSON trees; every structural mutation at every JSON path of every file (~3.4k singles, 4.6k pairs in quick, all pairs in thorough), moved entries, count skews, every truncation of every compressed file, gzip header/trailer substitutions, exact compressed/decompressed size boundaries per size parameter and factor, URI length boundary, reference presence rules, anchor string grammar, and every subset of failing CAS reads x 4 alternate-source configurations; outcome must be an error or operations satisfying the success invariant, never a panic.",
          TB + " Coverage-guided fuzzing named in the quantifier is not used (different technique).", "DESIGN.md §3 C14"),
  "C15": ("explicit-state enumeration of transaction / fault sequences through the real Observer, TxnProcessor and OperationProvider against a store-state model; fault-position enumeration at DocumentHandler intake",
-         "All sequences of <=3 (thorough 4) transactions over 8 kinds (2 valid batches, bad anchor, missing CAS content, count mismatch, duplicate suffix across index files, unknown namespace, unknown protocol version) x store failure position x unpublished-store failure x 2 delivery modes; plus all sequences of <=2 requests over 11 request kinds x queue / unpublished-store failure positions through a real DocumentHandler.",
+         "All sequences of <=4 (thorough 5) transactions over 8 kinds (2 valid batches, bad anchor, missing CAS content, count mismatch, duplicate suffix across index files, unknown namespace, unknown protocol version) x store failure position x unpublished-store failure x 2 delivery modes; plus all sequences of <=2 requests over 11 request kinds x queue / unpublished-store failure positions through a real DocumentHandler.",
          TB, "DESIGN.md §3 C15"),
  "C16": ("explicit-state BFS over Add/tick/fault event sequences on the real Writer+cutter+MemQueue+OperationHandler in lock-step with a list reference model; stateless deviation-bounded schedule exploration of real goroutines under a cooperative scheduler (sync/atomic import-rewritten overlay) with linearization replay",
-         "(a) BFS to depth 5 (thorough 6) over 16 (26) events incl. CAS-write / anchor-write failure positions: ~5k (~140k) reference states, every transition replayed on a fresh real node and compared on queue content, handler invocations and anchored batches; (b) 4 concurrent scenarios (2-3 submitters + writer thread with explorer-chosen ticks and faults), every execution with <=2 (thorough 3) deviations (~30k executions, ~1M choice points): queue calls linearized at lock grants and replayed on a FIFO list, batch size/version invariants, no deadlock, fault-free drain, exactly-once.",
+         "(a) BFS to depth 5 (thorough 6) over 16 (26) events incl. CAS-write / anchor-write failure positions: ~5k (~140k) reference states, every transition replayed on a fresh real node and compared on queue content, handler invocations and anchored batches; (b) 4 concurrent scenarios (2-3 submitters + writer thread with explorer-chosen ticks and faults), every execution with <=2 (thorough 3) deviations (~30k executions, ~1M choice points): queue calls linearized at lock grants and replayed on a FIFO list, batch size/version invariants, no deadlock, fault-free drain, exactly-once. Thorough additionally runs the same thread bodies free-running 600x from a -race build as a supporting (non-deciding) pass.",
          TB + " Unsynchronised accesses / weak memory are not modelled; the randomized -race runs named in the quantifier are a different technique (supporting only). MemQueue is volatile, so crash points are explored as failing steps.", "DESIGN.md §3 C16"),
  "C17": ("breadth-first explicit-state search over documents reachable through the real DocumentComposer, every patch list applied in every state, compared with an ordered-map reference",
          "BFS from {} over a 29-patch alphabet to depth 3 (thorough 4): 648 (1,526) distinct documents; in every state all 870 (thorough 25,259) patch lists of length <=2 (3) are applied and checked for purity, aliasing, determinism, atomicity, fold equivalence and equality with ref/doc; round trip through PatchesFromDocument for every qualifying reachable document.",
@@ -66,7 +66,7 @@ CLAIMED = {
          "Trusted: ref/sidetree, ref/doc, ref/jcs (independent of the code under test); harness-built requests; bounds as stated in evidence.",
          "DESIGN.md §3 C03"),
  "C20": ("explicit-state BFS over submit / tick / observe / advance event sequences on a node assembled from the library's real parts, in lock-step with an end-to-end reference (acceptance rule + queue/batch model + ledger + ref/sidetree + independent projection)",
-         "4 (thorough 8) configurations (script pairs over create/update/recover/deactivate/alias-update, unpublished store on/off, one or two protocol versions, MaxOperationCount 1-3), BFS to depth 8 (thorough 11), ~8k reference states / ~24k replayed traces in quick; after every trace every DID is resolved through DocumentHandler.ResolveDocument and compared (document, commitments, deactivated, published flag, canonical id), acceptance and ledger transactions are compared at every step, and create response / long-form / short-form documents are compared.",
+         "4 (thorough 10) configurations (script pairs over create/update/recover/deactivate/alias-update/json-patch-update, unpublished store on/off, one or two protocol versions that each enable a patch action the other lacks, MaxOperationCount 1-3), submissions and resolutions through the REST update/resolve handlers, BFS to depth 8 (thorough 11), ~8k reference states / ~24k replayed traces in quick; after every trace every DID is resolved through DocumentHandler.ResolveDocument and compared (document, commitments, deactivated, published flag, canonical id), acceptance and ledger transactions are compared at every step, and create response / long-form / short-form documents are compared.",
          TB + " Faults and concurrent submissions are C16's subject.", "DESIGN.md §3 C20"),
 }
 
